@@ -239,9 +239,12 @@ def coq_case(case, out, f7_fixed):
         tbl.append("((%d, %d), %s)" % (ids(b["apply_pre"]), ids(b["digest"]), post))
     libs = case.get("lib") or [0] * len(case["arrivals"])
     arr = ["(%d, %d%%nat)" % (l, names.index(a)) for l, a in zip(libs, case["arrivals"])]
+    pre = case.get("pre") or ["ok"] * len(case["arrivals"])
+    own = case.get("own") or [False] * len(case["arrivals"])
+    modes = [{"ok": 0, "ts": 1, "sign": 2}[p] + (4 if o else 0) for p, o in zip(pre, own)]
     exp = [flatten_step(ids, case, out, st, txuniv, nheights) for st in out["steps"]]
-    term = ("(mkCase %s [%s] [%s] [%s] [%s] %d%%nat %d%%nat %s %s %s [%s])" % (
-        gblk, "; ".join(coq_block(ids, b) for b in blocks), "; ".join(tbl), "; ".join(arr),
+    term = ("(mkCase %s [%s] [%s] [%s] [%s] [%s] %d%%nat %d%%nat %s %s %s [%s])" % (
+        gblk, "; ".join(coq_block(ids, b) for b in blocks), "; ".join(tbl), "; ".join(arr), ";".join(str(x) for x in modes),
         ";".join(str(ids(t)) for t in txuniv), nheights, case.get("orphan_cap", 100),
         "true" if f7_fixed else "false", "true" if F27_FIXED else "false", "true" if F28_FIXED else "false",
         "; ".join("[" + ";".join(str(x) for x in row) + "]" for row in exp)))
@@ -342,3 +345,64 @@ def longest_available(case, out, step_idx, libs):
         if inf["no"] > best:
             best, who = inf["no"], nm
     return best, who
+
+
+# ------------------------------------------------------------------ C07: a real MemPool behind the MemPoolDel/MemPoolPut trace
+def build_pool_engine(ctx):
+    rc, log, path = ctx.go_test_binary("mempool", [os.path.join(E, "zz_verif_c07pool_engine_test.go")], "c07pool.test")
+    if rc != 0:
+        raise RuntimeError("C07 pool engine build failed:\n" + log[-4000:])
+    return path
+
+
+def run_pool_engine(ctx, path, scripts, tag):
+    fin = os.path.join(ctx.workdir, tag + ".in")
+    fout = os.path.join(ctx.workdir, tag + ".out")
+    with open(fin, "w") as f:
+        for c in scripts:
+            f.write(json.dumps(c) + "\n")
+    if os.path.exists(fout):
+        os.remove(fout)
+    rc, log = ctx.run_bin(path, ["-test.run", "TestVerifC07PoolEngine"], env={"VERIF_IN": fin, "VERIF_OUT": fout}, timeout=600)
+    if rc != 0 or not os.path.exists(fout):
+        raise RuntimeError("C07 pool engine failed (rc=%s):\n%s" % (rc, log[-3000:]))
+    outs = [json.loads(l) for l in open(fout)]
+    if len(outs) != len(scripts):
+        raise RuntimeError("C07 pool engine: %d outputs for %d scripts" % (len(outs), len(scripts)))
+    return outs
+
+
+def pool_scripts(case, out):
+    """The message trace of one chain-engine case as scripts for the pool engine (two orders of the re-submitted
+    transactions: swapTxMapping ranges over a Go map).  Only cases without invalid blocks / forged numbers."""
+    if any(b.get("bad") or b.get("no") is not None or b.get("forge") for b in case["blocks"]):
+        return []
+    na = case.get("naccts", 3)
+    byname = {b["name"]: b for b in case["blocks"]}
+    nonces = {"G": [0] * na}
+    blocks, txof = [], {}
+    for b in case["blocks"]:
+        cur = list(nonces[b["parent"]])
+        txs = []
+        for i, t in enumerate(b["txs"]):
+            cur[t["from"]] += 1
+            x = {"from": t["from"], "to": t["to"], "amt": t["amt"], "nonce": cur[t["from"]]}
+            txs.append(x)
+            txof[out["blocks"][b["name"]]["txs"][i]] = x
+        nonces[b["name"]] = cur
+        blocks.append({"name": b["name"], "parent": b["parent"], "txs": txs})
+    id2name = {out["blocks"][n]["id"]: n for n in out["blocks"]}
+    top = [max([0] + [x["nonce"] for bl in blocks for x in bl["txs"] if x["from"] == a]) for a in range(na)]
+    preload = []
+    for a in range(na):
+        for d in (1, 2):
+            preload.append({"from": a, "to": (a + 1) % na, "amt": 1, "nonce": top[a] + d})
+    res = []
+    for order in ("asc", "desc"):
+        steps = []
+        for st in out["steps"]:
+            puts = [txof[h] for h in st["put"] if h in txof]
+            puts.sort(key=lambda x: (x["nonce"], x["from"]), reverse=(order == "desc"))
+            steps.append({"dels": [id2name[d] for d in st["del"] if d in id2name], "puts": puts})
+        res.append({"id": "%s/%s" % (case["id"], order), "naccts": na, "blocks": blocks, "preload": preload, "steps": steps})
+    return res
